@@ -958,8 +958,11 @@ impl AstNode for UtxoRef {
         let txid = hex::decode(raw_txid)
             .map_err(|_| Error::custom("invalid hex in utxo ref txid", pair.as_span()))?;
 
+        // the IR holds an output index in 32 bits: a larger one is refused here rather
+        // than cut down to its low bits when lowering
         let index = raw_output_ix
-            .parse()
+            .parse::<u32>()
+            .map(u64::from)
             .map_err(|_| Error::custom("invalid utxo ref output index", pair.as_span()))?;
 
         Ok(UtxoRef { txid, index, span })
